@@ -37,11 +37,11 @@ func init() {
 }
 
 var auditedC02 = map[string]auditEntry{
-	"clients/datasource.HTTPAuthentication.Get:wwwAuth[idx]": {reason: "idx is the result of authIndex (slices.IndexFunc over the same slice), tested >= 0", needs: []string{"call:clients/datasource.HTTPAuthentication.authIndex"}},
-	"extractor/filesystem/language/javascript/internal/commitextractor.TryExtractCommit:matched[1]":                                                                            {reason: "every pattern in the package-level matchers list has exactly one capture group; matched != nil is tested"},
-	"extractor/filesystem/os/dpkg.parseSourceNameVersion:source[idx + 2:len(source) - 1]":                                                                                      {reason: "source contains \" (\" at idx and ends in \")\", a different byte, so len(source)-1 >= idx+2", needs: []string{"call:strings.HasSuffix", "call:strings.Index"}},
-	"extractor/filesystem/os/flatpak.Extractor.extractFromInput:f.Releases.Release[0]":                                                                                         {reason: "reached only with pkgVersion != \"\", which is assigned only under len(f.Releases.Release) > 0"},
-	"extractor/filesystem/os/nix.Extractor.Extract:strings.Split(input.Path, \"/\")[2]":                                                                                        {reason: "Extract runs only on paths FileRequired accepted (engine rule C01-D1), and FileRequired requires more than 3 path components"},
+	"clients/datasource.HTTPAuthentication.Get:wwwAuth[idx]":                                        {reason: "idx is the result of authIndex (slices.IndexFunc over the same slice), tested >= 0", needs: []string{"call:clients/datasource.HTTPAuthentication.authIndex"}},
+	"extractor/filesystem/language/javascript/internal/commitextractor.TryExtractCommit:matched[1]": {reason: "every pattern in the package-level matchers list has exactly one capture group; matched != nil is tested"},
+	"extractor/filesystem/os/dpkg.parseSourceNameVersion:source[idx + 2:len(source) - 1]":           {reason: "source contains \" (\" at idx and ends in \")\", a different byte, so len(source)-1 >= idx+2", needs: []string{"call:strings.HasSuffix", "call:strings.Index"}},
+	"extractor/filesystem/os/flatpak.Extractor.extractFromInput:f.Releases.Release[0]":              {reason: "reached only with pkgVersion != \"\", which is assigned only under len(f.Releases.Release) > 0"},
+	"extractor/filesystem/os/nix.Extractor.Extract:strings.Split(input.Path, \"/\")[2]":             {reason: "Extract runs only on paths FileRequired accepted (engine rule C01-D1), and FileRequired requires more than 3 path components"},
 }
 
 // extractorRoots: Extract/FileRequired/ToPURL/Ecosystem methods of every plugin registered in
